@@ -1,7 +1,7 @@
-"""Extension (beyond the listed properties): unbounded arguments for three DESIGNS of the specification library, with
+"""Extension (beyond the listed properties): unbounded arguments for four DESIGNS of the specification library, with
 Apalache - inductive invariants of spec/Apa_Link.tla (all bandwidths, all frame sizes; C18's design) and
 spec/Apa_NodePower.tla (all start-up / shut-down durations; C12's design) and spec/Apa_Software.tla (all restart /
-install durations; C13's design).  For each module: the base case (Init =>
+install durations; C13's design) and spec/Apa_Switch.tla (all port counts and address sets; the design of Switch.tla).  For each module: the base case (Init =>
 IndInv, length 0), the inductive step (IndInv /\\ Next => IndInv', length 1 from IndInit) and a mutated design that
 Apalache must refute (otherwise the invariant binds nothing).  Extra evidence only: no property verdict relies on
 it (DESIGN.md section 8).  Run: ./check EXT-apalache"""
@@ -27,6 +27,9 @@ MODULES: List[Tuple[str, str, str, str]] = [
     ("Apa_Software", "timers of restart / install stay inside the completion window, nothing runs on a node that is off, a tick is "
      "always possible, for every pair of durations",
      "\\/ sage < restartDur /\\ sop' = sop", "\\/ sage <= restartDur /\\ sop' = sop"),
+    ("Apa_Switch", "the MAC table names only ports of the switch, one port per address, a flood never leaves through its ingress port, a "
+     "learnt unicast leaves through at most one port, for every number of ports and every set of addresses",
+     "lastOuts' = enabled \\ {inp}", "lastOuts' = enabled"),
 ]
 
 
